@@ -93,6 +93,7 @@ end
 
 def isPlainGlob : Stmt → Bool
   | .field _ (k :: _) _ _ => k.q == 0 && k.s != "***" && k.s.any (· == '*')
+  | .edge _ a _ d _ _ _ _ => (a ++ d).any fun k => k.q == 0 && k.s.any (· == '*')
   | _ => false
 
 def isBlock (kw : String) : Stmt → Bool
